@@ -15,7 +15,7 @@ ANCHORS = ['mpilot/libraries/eems/fuzzy.py:FuzzyOr.execute', 'mpilot/libraries/e
 LEVEL = "exploration"
 RULE = ("operator x parameter x input-order x layout cases; n<=3 inputs enumerate the complete 18^n value/missing lattice as "
         "array cells, n=4,5 sample cell tuples; a case is distinct by (operator, n, params, layout rank, order class)")
-REQUIRED_COUNTERS = ["ref_postconditions", "law_checks", "cells_compared"]
+REQUIRED_COUNTERS = ["ref_postconditions", "law_checks", "cells_compared", "repeated_field_cases", "mixed_dtype_cases"]
 EXHAUSTIVE_NOTE = "complete {17 fuzzy values + missing}^n lattice for n = 1, 2, 3 in both tiers"
 ASSUMPTIONS = ["reference models in mpv/ref.py (exact rationals) are the EEMS definitions as stated in the property",
                "numpy masked-array primitives are trusted", "FuzzyXOr with one input, k outside 1..n and zero weight sums are don't-care"]
@@ -37,10 +37,12 @@ def sampled_columns(rng, n, count):
     return [[rng.choice(VALUES) for _ in range(count)] for _ in range(n)]
 
 
-def build_inputs(cols, shape, payload=0.0):
+def build_inputs(cols, shape, payload=0.0, dtypes=None):
     out = []
-    for col in cols:
-        data = numpy.array([payload if v is None else v for v in col], dtype="float64").reshape(shape)
+    for k, col in enumerate(cols):
+        dt = dtypes[k] if dtypes else "float64"
+        pl = payload if not dt.startswith("int") else 0
+        data = numpy.array([pl if v is None else v for v in col], dtype=dt).reshape(shape)
         mask = numpy.array([v is None for v in col], dtype=bool).reshape(shape)
         out.append(numpy.ma.array(data, mask=mask))
     return out
@@ -86,6 +88,24 @@ def cases(ctx):
                         if ctx.mine(idx):
                             yield {"kind": "lattice", "n": n, "op": op, "params": params, "shape": list(shape), "order": list(order)}
                         idx += 1
+    # repeated fields ([A, A, B]) and mixed element types (crisp integer -1/0/1 fields, float32 fields) in any order
+    for r in range(ctx.n(40, 2000)):
+        n = rng.choice([2, 3, 3, 4])
+        op = rng.choice([o for o in OPS if o != "FuzzyNot"])
+        refs = [rng.randrange(n - 1) for _ in range(n)]
+        refs[rng.randrange(n)] = refs[0]
+        ps = param_sets(rng, op, n, ctx.quick)
+        yield {"kind": "sampled", "n": n, "op": op, "params": rng.choice(ps), "shape": [400], "order": list(range(n)), "count": 400, "rseed": rng.randrange(10 ** 9), "refs": refs}
+    for r in range(ctx.n(40, 2000)):
+        n = rng.choice([2, 3, 4])
+        op = rng.choice([o for o in OPS if o != "FuzzyNot"])
+        dts = [rng.choice(["int64", "float32", "float64", "float64"]) for _ in range(n)]
+        if len(set(dts)) == 1:
+            dts[0] = "int64" if dts[0] != "int64" else "float32"
+        order = list(range(n))
+        rng.shuffle(order)
+        ps = param_sets(rng, op, n, ctx.quick)
+        yield {"kind": "sampled", "n": n, "op": op, "params": rng.choice(ps), "shape": [400], "order": order, "count": 400, "rseed": rng.randrange(10 ** 9), "dtypes": dts}
     # sampled n = 4, 5
     reps = ctx.n(24, 400)
     count = 1500 if ctx.quick else 20000
@@ -105,7 +125,11 @@ def _columns(case):
         return lattice_columns(case["n"])
     if case["kind"] == "sampled":
         import random
-        return sampled_columns(random.Random(case["rseed"]), case["n"], case["count"])
+        cols = sampled_columns(random.Random(case["rseed"]), case["n"], case["count"])
+        for k, dt in enumerate(case.get("dtypes") or []):
+            if dt.startswith("int"):     # crisp fields: fully false / undetermined / fully true
+                cols[k] = [None if v is None else float(round(v)) for v in cols[k]]
+        return cols
     return [[None if v is None else float(v) for v in col] for col in case["cols"]]
 
 
@@ -116,8 +140,8 @@ def _weights_for(params, order):
     return p
 
 
-def _call(op, inputs, params):
-    out, _ = arr.run_cmd(op, inputs, params, fuzzy_inputs=True)
+def _call(op, inputs, params, refs=None):
+    out, _ = arr.run_cmd(op, inputs, params, fuzzy_inputs=True, refs=refs)
     return out
 
 
@@ -136,19 +160,26 @@ def run_case(ctx, case):
     total = len(cols[0])
     if case["kind"] == "explicit":
         shape = (total,)
+    refs, dtypes = case.get("refs"), case.get("dtypes")
     ocols = [cols[i] for i in order]
     oparams = _weights_for(params, order)
-    inputs = build_inputs(ocols, shape, payload=ctx.rng("payload", op, n).choice([0.0, 1e30, -1e30, 0.5]))
-    ctx.feature((op, n, tuple(sorted((k, str(v)) for k, v in params.items())), len(shape), "identity" if order == sorted(order) else "permuted"))
+    odt = [dtypes[i] for i in order] if dtypes else None
+    inputs = build_inputs(ocols, shape, payload=ctx.rng("payload", op, n).choice([0.0, 1e30, -1e30, 0.5]), dtypes=odt)
+    if refs:
+        ctx.count("repeated_field_cases")
+        ocols = [ocols[i] for i in refs]
+    if dtypes:
+        ctx.count("mixed_dtype_cases")
+    ctx.feature((op, n, tuple(sorted((k, str(v)) for k, v in params.items())), len(shape), "identity" if order == sorted(order) else "permuted", bool(refs), tuple(odt or ())))
     ctx.count("operator_calls")
     fcols = [[None if v is None else Fraction(v) for v in c] for c in ocols]
     try:
         want, scale = ref.MODELS[op](fcols, oparams)
     except ref.Undefined as e:
         ctx.dontcare("%s: %s" % (op, e))
-        out = _call(op, inputs, oparams)
+        out = _call(op, inputs, oparams, refs)
         return
-    out = _call(op, inputs, oparams)
+    out = _call(op, inputs, oparams, refs)
     rk = _rank_key(shape)
     if not out.ok:
         ctx.fail("%s:raises-%s:%s" % (op, out.inner() or out.err, rk), {"error": repr(out.exc)[:300], "n": n, "params": params, "shape": list(shape)},
@@ -160,10 +191,10 @@ def run_case(ctx, case):
         return
     ctx.count("ref_postconditions")
     ctx.count("cells_compared", total)
-    bad = ref.compare(res, want, scale=scale, rel=1e-12)
+    bad = ref.compare(res, want, scale=scale, rel=1e-6 if dtypes and "float32" in dtypes else 1e-12)
     if bad:
         kind, i, g, w = bad
-        small = _one_cell_case(case, cols, i) if i is not None else case
+        small = _one_cell_case(case, cols, i) if i is not None and not refs and not dtypes else case
         nclass = "n%d" % n if n <= 2 else "n>=3"
         ctx.fail("%s:%s:%s:%s" % (op, kind, nclass, rk),
                  {"cell_inputs": [c[i] for c in ocols] if i is not None else None, "got": g, "want": w, "params": oparams, "shape": list(shape)}, small)
@@ -173,8 +204,8 @@ def run_case(ctx, case):
                     "results": [arr.cells(res)[j] for j in (0, 17, 100)]})
 
     # ---- metamorphic laws on the same inputs (identity order is the base)
-    if order != sorted(order):
-        base_inputs = build_inputs(cols, shape)
+    if order != sorted(order) and not refs:
+        base_inputs = build_inputs(cols, shape, dtypes=dtypes)
         base = _call(op, base_inputs, params)
         ctx.count("law_checks")
         if base.ok:
@@ -186,7 +217,7 @@ def run_case(ctx, case):
                 ctx.fail("%s:order-dependent:%s" % (op, rk), {"order": order, "n": n, "params": params})
         else:
             ctx.fail("%s:order-dependent-outcome:%s" % (op, rk), {"order": order, "error": repr(base.exc)[:200]})
-    if order == sorted(order) and len(shape) == 1:
+    if order == sorted(order) and len(shape) == 1 and not refs and not dtypes:
         _laws(ctx, case, op, n, params, cols, inputs, res, shape)
 
 
